@@ -1,4 +1,4 @@
-import Tickit.Proof.EvLoopLog
+import Tickit.Proof.EvLoopPend
 import Tickit.Gen.EvLoop
 /-
   C18 — A delivered signal or ready descriptor always reaches its watchers.   (claimed: partial)
@@ -20,6 +20,8 @@ import Tickit.Gen.EvLoop
     `io_exact_conditions_*`              the entry's revents are translated bit for bit, the kernel's report is
                                           stored exactly, a slot handed out by the repaired evloop_io reports nothing;
     `cancelled_not_invoked`              a cancelled entry is skipped.
+    `signal_reaches_watchers_end_to_end` one repaired iteration, from the wait to the callback log (uses
+                                          `signal_bookkeeping_invariant`, `dispatch_reaches_watchers`).
   Defects of the shipped tree: the `*_counterexample` theorems (corpus/C18).  Not proved: the
   `def … : Prop` at the end (engines.d/C18.json open_statements).
 -/
@@ -161,6 +163,46 @@ theorem signal_reaches_watchers_logged_repaired (fuel : Nat) (st : St) (s : Int)
       Ev.cb (st.getW b).slot EV_FIRE .none ∈ (sigSnapLoopT fuel st s st.signals).1.log :=
   fun b hb hfin hsig hslot => sigsnap_logged fuel s st.signals st i hok b hb (i.alloc b hb) hfin hsig hslot
 
+/-! ### end to end: from the wait to the callback log -/
+
+/-- In every reachable state whose status is ok, under any variant of the source, the loop's `watched_signals`
+    and `signums[]` agree with the list of signal watches (every listed watch's number is watched, sits in
+    its own slot, and slots are not shared). -/
+theorem signal_bookkeeping_invariant (cfg : Config) (ops : List Op) (hok : (runOps cfg ops).status = .ok) :
+    KInv (runOps cfg ops) := kinv_runOps cfg ops hok
+
+/-- `dispatch_signals`: for every recorded signal, every harness watch of it that is in the list when the
+    dispatch starts and still there when it ends has its FIRE entry in the log — whatever the callbacks of
+    this and of the other signals did (either variant of the walk). -/
+theorem dispatch_reaches_watchers (fuel : Nat) (st : St) (k : KInv st) (hok : (dispatchSignals fuel st).status = .ok) :
+    ∀ s ∈ signalRange, s ∈ st.pendingSig → ∀ b ∈ st.signals, b ∈ (dispatchSignals fuel st).signals →
+      (st.getW b).signum = s → (st.getW b).slot ≥ 0 →
+      Ev.cb (st.getW b).slot EV_FIRE .none ∈ (dispatchSignals fuel st).log :=
+  dispatchSignals_logged fuel st k hok
+
+/-- One iteration under the repaired `evloop_run`, from the wait to the log: every signal that was pending in
+    the kernel when the wait looked at signals — raised before the iteration, from a callback of an earlier
+    one, or inside the wait — reaches every harness watch of it that is listed after the timers and deferred
+    callbacks have run and is not cancelled before the iteration ends: its FIRE entry is in the log of this
+    iteration, whatever timers, deferred callbacks and the other signal callbacks did (errno included). -/
+theorem signal_reaches_watchers_end_to_end (fuel : Nat) (st : St) (nohang : Bool) (k : KInv st) (hs : st.cfg.errnoSaved = true)
+    (hok0 : st.isOk = true) (hok1 : (nextTimerMsec st).1.isOk = true)
+    (hok2 : (ppoll (nextTimerMsec st).1 (tickTimeout nohang (nextTimerMsec st).2)).1.isOk = true)
+    (hint : (ppoll (nextTimerMsec st).1 (tickTimeout nohang (nextTimerMsec st).2)).2 = none)
+    (hok3 : (invokeTimers fuel (ppoll (nextTimerMsec st).1 (tickTimeout nohang (nextTimerMsec st).2)).1).isOk = true)
+    (hok : (tick fuel st nohang).status = .ok) :
+    ∀ s ∈ signalRange, s ∈ (pollRaise (pollScan (nextTimerMsec st).1)).kpending →
+      ∀ b ∈ (invokeTimers fuel (ppoll (nextTimerMsec st).1 (tickTimeout nohang (nextTimerMsec st).2)).1).signals,
+        b ∈ (tick fuel st nohang).signals →
+        ((invokeTimers fuel (ppoll (nextTimerMsec st).1 (tickTimeout nohang (nextTimerMsec st).2)).1).getW b).signum = s →
+        ((invokeTimers fuel (ppoll (nextTimerMsec st).1 (tickTimeout nohang (nextTimerMsec st).2)).1).getW b).slot ≥ 0 →
+        Ev.cb ((invokeTimers fuel (ppoll (nextTimerMsec st).1 (tickTimeout nohang (nextTimerMsec st).2)).1).getW b).slot EV_FIRE .none
+          ∈ (tick fuel st nohang).log :=
+  tick_signal_reaches_logged fuel st nohang k hs hok0 hok1 hok2 hint hok3 hok
+
+example : Ev.cb 1 EV_FIRE .none ∈ (runOps .repaired [.beh ⟨0, 0, [.errno 11, .stop]⟩, .act (.signal 1 23 0), .act (.signal 2 10 0),
+    .act (.timer 0 0 0), .act (.raise 23), .act (.raise 10), .tick]).log := by decide +kernel
+
 /-! ### descriptors -/
 
 /-- The translation `revents → cond` is exact, bit for bit. -/
@@ -254,18 +296,6 @@ theorem signal_self_cancel_repaired : (runOps .repaired probeSigSelfCancel).stat
     cbLog (runOps .repaired probeSigSelfCancel) = [.cb 0 1 .none] := by decide +kernel
 
 /-! ### statements of the property that are not proved (engines.d/C18.json: open_statements) -/
-
-/-- The same, read off the callback log of a whole iteration under the repaired source: every live
-    watcher of a signal the handler recorded during the wait appears in the log of that iteration.
-    (Proved: the wait records every pending signal; dispatch follows an interrupted wait whatever the
-    callbacks did; the walk skips nobody and keeps list order.  Not proved: the bookkeeping that turns
-    "visited" into "has an entry in `log`", and the composition over the `for(signum …)` loop.) -/
-def signal_reaches_watchers_full : Prop :=
-  ∀ (fuel : Nat) (st : St) (nohang : Bool), st.cfg = .repaired → (tick fuel st nohang).status = .ok →
-    ∀ s ∈ st.kpending, ∀ a ∈ (tick fuel st nohang).signals, a ∈ st.signals →
-      ((tick fuel st nohang).getW a).signum = s → ((tick fuel st nohang).getW a).slot ≥ 0 →
-      (∀ fd ∈ st.ready, fd.2 = 0) →
-      Ev.cb ((tick fuel st nohang).getW a).slot EV_FIRE .none ∈ (tick fuel st nohang).log
 
 /-- End to end for descriptors under the repaired source: in one iteration every invocation of an io
     watch carries `condOfRevents (pollRevents …)` of *its own* entry as scanned by this iteration's wait. -/
